@@ -46,7 +46,7 @@ type comp struct{}
 const secretOfUsers = "right"
 
 // generous: an answer that is merely late on a loaded machine must not look like "no answer"
-const radTimeout = 600 * time.Millisecond
+const radTimeout = 2 * time.Second
 
 // what one Access-Request carried
 type radReq struct {
@@ -93,6 +93,7 @@ func verifyCreds(q radReq) bool {
 
 func (r *radSrv) loop() {
 	buf := make([]byte, 4096)
+	last := ""
 	for {
 		n, addr, err := r.conn.ReadFromUDP(buf)
 		if err != nil {
@@ -102,6 +103,10 @@ func (r *radSrv) loop() {
 		if err != nil {
 			continue
 		}
+		// the RADIUS library retransmits the identical datagram every second while it waits: a retransmission is
+		// answered again but is not a second request
+		retrans := last == string(buf[:n])
+		last = string(buf[:n])
 		var q radReq
 		q.user = rfc2865.UserName_GetString(pkt)
 		if v, err := rfc2865.UserPassword_Lookup(pkt); err == nil {
@@ -115,7 +120,9 @@ func (r *radSrv) loop() {
 		}
 		r.mu.Lock()
 		mode := r.mode
-		r.reqs = append(r.reqs, q)
+		if !retrans {
+			r.reqs = append(r.reqs, q)
+		}
 		r.mu.Unlock()
 		var resp *radius.Packet
 		switch mode {
@@ -558,7 +565,7 @@ func rateLimitSeq(rg *rand.Rand) []string {
 
 func (comp) Gen(rg *rand.Rand, tier string, emit func([]string)) {
 	n, nrl, depth := 2500, 150, 3
-	downBudget = 6
+	downBudget = 4
 	if tier == "thorough" {
 		n, nrl, depth = 40000, 1500, 4
 		downBudget = 60
